@@ -89,7 +89,10 @@ class ModProfile:
         fault = None
         if rnd.random() < 0.2:
             fault = {"kind": rnd.choice(["missing", "notelf"]), "module": rnd.choice(nodes)}
+        # which optional hooks each module exports (post-init and destructor are both optional)
+        variant = {m: rnd.choices(["", "_np", "_nd", "_npd"], [5, 2, 1, 1])[0] for m in nodes} if rnd.random() < 0.6 else {}
         plan = {"profile": "modules", "nodes": nodes, "deps": deps, "listed": listed, "fault": fault, "shape": shape, "cyc": cyc,
+                "variant": variant,
                 "stop": rnd.choice(["HUP", "HUP", "EOFLESS"])}
         return plan, self.run(plan, tag)
 
@@ -105,7 +108,7 @@ class ModProfile:
                     with open(dst, "wb") as f:
                         f.write(b"this is not an ELF object\n" * 10)
                 continue
-            os.symlink(os.path.join(H.STUBS, m + ".so"), dst)
+            os.symlink(os.path.join(H.STUBS, m + plan.get("variant", {}).get(m, "") + ".so"), dst)
         conf = os.path.join(scratch, "iauthd.conf")
         text = 'core {\n library_path ( "mods" )\n modules ( %s )\n}\n' % ", ".join(listed)
         with open(conf, "w") as f:
@@ -138,7 +141,9 @@ class ModProfile:
         bad = has_cycle(clo, deps) or (fault is not None and fault["module"] in clo)
         res.extra = {"graphs": 1, "acyclic_loadable": int(not bad), "cyclic": int(has_cycle(clo, deps)),
                      "unloadable": int(fault is not None and fault["module"] in clo),
-                     "multi_path": int(self.multipath(clo, deps)), "edges": sum(len(deps[m]) for m in clo)}
+                     "multi_path": int(self.multipath(clo, deps)), "edges": sum(len(deps[m]) for m in clo),
+                     "modules_without_postinit": sum(1 for m in clo if plan.get("variant", {}).get(m, "") in ("_np", "_npd")),
+                     "modules_without_destructor": sum(1 for m in clo if plan.get("variant", {}).get(m, "") in ("_nd", "_npd"))}
         pos = {}
         for i, e in enumerate(ev):
             pos.setdefault(tuple(e), i)
@@ -154,22 +159,28 @@ class ModProfile:
                 viol.append(Violation(("C20",), "good-graph-aborted", "acyclic, loadable dependency graph but start-up aborted (reached loop: %s, exit status %s): %s" %
                                       (reached, ex.rc, (ex.out.decode("latin1") + ex.stderr)[-300:].replace("\n", " "))))
             else:
+                var = plan.get("variant", {})
+                has_pi = {m: var.get(m, "") in ("", "_nd") for m in clo}
+                has_dt = {m: var.get(m, "") in ("", "_np") for m in clo}
                 for m in sorted(clo):
                     for k in ("ctor-begin", "ctor-end", "postinit", "dtor"):
                         c = sum(1 for e in ev if e[0] == k and e[1] == m)
-                        if c != 1:
-                            viol.append(Violation(("C20",), "count", "%s of %s happened %d times" % (k, m, c)))
+                        want = 1 if (k.startswith("ctor") or (k == "postinit" and has_pi[m]) or (k == "dtor" and has_dt[m])) else 0
+                        if c != want:
+                            viol.append(Violation(("C20",), "count", "%s of %s happened %d times, expected %d" % (k, m, c, want)))
                 if not viol:
                     for m in sorted(clo):
                         for d in deps[m]:
                             if not pos[("ctor-end", d)] < pos[("dep-return", m, d)]:
                                 viol.append(Violation(("C20",), "ctor-order", "%s was still constructing when %s's module_depends(%s) returned" % (d, m, d)))
-                            if not pos[("postinit", d, d)] < pos[("postinit", m, m)]:
+                        # transitively: a module without the hook in between does not break the chain
+                        for d in sorted(closure(deps[m], deps) - {m}):
+                            if has_pi[m] and has_pi[d] and not pos[("postinit", d, d)] < pos[("postinit", m, m)]:
                                 viol.append(Violation(("C20",), "postinit-order", "post-init of %s ran before that of its dependency %s" % (m, d)))
-                            if not pos[("dtor", m)] < pos[("dtor", d)]:
+                            if has_dt[m] and has_dt[d] and not pos[("dtor", m)] < pos[("dtor", d)]:
                                 viol.append(Violation(("C20",), "dtor-order", "destructor of %s ran after that of its dependency %s" % (m, d)))
                     lastctor = max(pos[("ctor-end", m)] for m in clo)
-                    firstpi = min(pos[("postinit", m, m)] for m in clo)
+                    firstpi = min([pos[("postinit", m, m)] for m in clo if has_pi[m]] or [len(ev)])
                     if not lastctor < firstpi:
                         viol.append(Violation(("C20",), "postinit-early", "a post-init ran before every module was constructed"))
                     extra = [e for e in ev if e[1] not in clo]
@@ -229,6 +240,13 @@ class ModProfile:
                 cur = c
             else:
                 j += 1
+        for m in sorted(cur.get("variant", {})):
+            if cur["variant"][m] and budget[0] > 0:
+                c = copy.deepcopy(cur)
+                c["variant"][m] = ""
+                budget[0] -= 1
+                if pred(c):
+                    cur = c
         if cur.get("fault") and budget[0] > 0:
             c = copy.deepcopy(cur)
             c["fault"] = None
